@@ -41,9 +41,12 @@ func TestC06(t *testing.T) {
 	nameSets := [][]string{{"a", "B.TXT", "c d"}, {"é", strings.Repeat("n", 255), "ж.iso"}}
 	lops := []uint16{opReadDir, opReadDirEntry, opReadDirEntryV2}
 	caseIdx := 0
+	gate := newReplayGate(r, "C06", w.Root, w.Dir, false, 17, 2)
+	defer gate.Stop()
 	run := func(desc string, reqs []Req) {
 		m := newModel(w.Root, false)
 		res := runSession(t, SrvOpts{Root: w.Root}, m, reqs, Delivery{})
+		gate.maybe(newModel(w.Root, false), reqs, res, desc, nil)
 		r.Transition(int64(len(res.Steps)))
 		r.Eval(1)
 		key := desc + "|" + strings.Join(reqStrings(reqs), ",")
